@@ -227,6 +227,7 @@ func runGoSemStream(c *Ctx, n int) {
 	}
 	bt.Flush()
 	runGoSemTreeStream(c, n/10+1) // the tree of lib/common/multimap (gosem_tree.go)
+	runGoSemSynStream(c, n/2+1)   // the primitives of the syntax printer (gosem_syn.go)
 }
 
 func gosemB2i(b bool) int {
